@@ -62,7 +62,8 @@ def _draw_stack(cfg):
     layers = []
     for i in range(depth):
         kind = 'decorator' if not cfg.get('wrapper_decorator', True) or sym.flip('kind') else 'wrapper_decorator'
-        own = OWN[sym.pick(len(OWN), 'own')]
+        owns = tuple(cfg.get('own_forms', OWN))
+        own = owns[sym.pick(len(owns), 'own')] if len(owns) > 1 else owns[0]
         layers.append((kind, own))
     return layers
 
@@ -145,6 +146,10 @@ def h_signature(ctx, cfg):
         ws = list(wrappers.wrappers(b['unbound']))
     ctx.require('wrappers-lists-outermost-first', len(ws) == len(b['decos']) and all(a is c for a, c in zip(ws, b['decos'])),
                 lambda: dict(got=repr(ws)))
+    with sym.concrete():
+        ws2 = list(wrappers.wrappers(b['obj']))
+    ctx.require('wrappers-lists-outermost-first-when-bound', len(ws2) == len(b['decos']) and
+                all(a is c for a, c in zip(ws2, b['decos'])), lambda: dict(got=repr(ws2), placement=placement))
     if placement == 'method' and not any(own == 'pok' for k, own in layers):
         # (with a positional own parameter the decorated function's self is not the first parameter)
         with sym.concrete():
@@ -159,7 +164,13 @@ def h_signature(ctx, cfg):
 def h_call(ctx, cfg):
     spec = U.gen_sigs(1, cfg['K'])[0]
     layers = _draw_stack(cfg)
-    placement = ('function', 'method', 'staticmethod')[sym.pick(3, 'placement')]
+    if cfg.get('min_depth') and len(layers) < cfg['min_depth']:
+        sym.ignore_path() if False else None
+        with sym.notrace():
+            ctx.case('shallow stack skipped', nontrivial=False)
+        return
+    placements = tuple(cfg.get('placements', ('function', 'method', 'staticmethod')))
+    placement = placements[sym.pick(len(placements), 'placement')] if len(placements) > 1 else placements[0]
     raises = sym.flip('raises')
     npos = sum(1 for k in spec.kinds if k < 2)
     n = sym.pick(npos + 3, 'n')
@@ -282,6 +293,10 @@ def plan(tier):
             dict(name='call-K1-D1', fn='h_call', depth=9, budget_s=300, cfg=dict(K=1, D=1),
                  bounds='decorated functions with <=1 named parameter x 1 layer x 3 placements x returning/raising body x calls n<=len+2, every keyword subset incl. own and foreign names; symbolic values',
                  min_nontrivial=300, must_reach=['same-result-as-composition', 'exception-propagates-unchanged']),
+            dict(name='call-stacks-as-methods', fn='h_call', depth=9, budget_s=300,
+                 cfg=dict(K=1, D=2, min_depth=2, placements=['method'], own_forms=['none', 'kwo-default']),
+                 bounds='methods with <=1 named parameter under stacks of exactly 2 layers (2 kinds x own parameter none / keyword-only with default) x returning/raising body x calls; symbolic values',
+                 min_nontrivial=300, must_reach=['same-result-as-composition']),
             dict(name='combination-signature-total2', fn='h_combination', depth=9, budget_s=300, cfg=dict(K=1, total=2, calls=False),
                  bounds='Combination of 1..3 functions with <=1 named parameter each, <=2 in total; signature soundness for sigtools.signature and inspect.signature',
                  min_nontrivial=300, must_reach=['combination-signature-sound']),
